@@ -2,7 +2,7 @@
    encode the observation.  [run] is what the extracted CLI calls; [judge] applies the
    executable property predicates of Spec.v to an observation made on the IMPLEMENTATION. *)
 From Coq Require Import List Ascii String ZArith Bool.
-From Model Require Import Bytes Wire Glob StaticRoute RoundRobin Pins Resolver SendFault Codec Message Spec SpecC14 SpecC16 SpecC15 SpecC19 SpecC05 SpecC20 RunProxy.
+From Model Require Import Bytes Wire Glob StaticRoute RoundRobin Pins Resolver SendFault Codec Message Spec SpecC14 SpecC16 SpecC15 SpecC19 SpecC05 SpecC20 RunProxy RunBufio SpecProxy.
 Import ListNotations.
 
 Definition decode_error : list bytes := [s2b "decode-error"].
@@ -174,7 +174,7 @@ Definition run (comp : bytes) (args : list bytes) : list bytes :=
   else if beq comp (s2b "codecgen") then run_codecgen args
   else if beq comp (s2b "dialog") then run_dialog args
   else if beq comp (s2b "proxy") then run_proxy args
-  else [s2b "unknown-component"].
+  else match run_bufio comp args with Some r => r | None => [s2b "unknown-component"] end.
 
 (* codec: kind text nexpected expected.. then the observation *)
 Definition judge_codec (args : list bytes) : list bytes :=
@@ -283,4 +283,10 @@ Definition judge (comp : bytes) (args : list bytes) : list bytes :=
   else if beq comp (s2b "pins") then judge_pins args
   else if beq comp (s2b "resolver") then judge_resolver args
   else if beq comp (s2b "sendfault") then judge_sendfault args
-  else [s2b "unknown-component"].
+  else if beq comp (s2b "proxy-C01") then judge_proxy_with judge_C01_event args
+  else if beq comp (s2b "proxy-C02") then judge_proxy_with judge_C02_event args
+  else if beq comp (s2b "proxy-C03") then judge_proxy_with judge_C03_event args
+  else if beq comp (s2b "proxy-C06") then judge_proxy_with judge_C06_event args
+  else if beq comp (s2b "proxy-C07") then judge_proxy_with judge_C07_event args
+  else if beq comp (s2b "proxy-C13") then judge_proxy_with judge_C13_event args
+  else match judge_bufio comp args with Some r => r | None => [s2b "unknown-component"] end.
